@@ -161,7 +161,8 @@ impl Axecutor {
                                 "ELF: preexisting TLS area is too small"
                             );
                             debug_log!("ELF: TLS area already exists, reusing it");
-                            segment.p_vaddr + a.len()
+                            // an area may end exactly at 2^64
+                            segment.p_vaddr.wrapping_add(a.len())
                         }
                         None => Err(AxError::from("ELF: TLS area does not exist, but expected it to be created by previous LOAD program header"))?,
                     };
